@@ -191,7 +191,7 @@ PROPS = {
         kani_quick=CONV,
         kani_thorough=[],
         level_text='Numeric conversions: complete Kani proofs over all 64-bit inputs through the real #[dispatch] entry (thorough tier); f-string concatenation: Verus arm contract on the VM. String round trips and non-UTF-8 rejection are std behaviour behind parse/to_string/from_utf8 and are not decided.',
-        not_covered=['int(string(i)) == i and the other string round trips (std parse / Display are mutually inverse: assumed)', 'what std::String::from_utf8 accepts (the wiring string(bytes) = from_utf8 or an error IS under contract)',
+        not_covered=['int(string(i)) == i and the other string round trips (std parse / Display are mutually inverse: assumed; that int / uint / double of a string hand exactly that text to std\'s parser and fail when it does IS under contract)', 'what std::String::from_utf8 accepts (the wiring string(bytes) = from_utf8 or an error IS under contract)',
                      'type(T(x)) == T', '{{ }} handling of f-strings in the tokenizer (segmentation)'],
         assumptions=[],
     ),
